@@ -55,9 +55,10 @@ fn six(kind: usize, a: f64) -> Apodization {
 }
 
 fn gen_len(r: &mut Rng) -> f64 {
-  match r.below(4) {
+  match r.below(6) {
     0 => 1000e-6,
     1 => 20_000e-6,
+    2 => r.log_range(1e-9, 1e3), // far outside the usual millimetres: the statement has no range restriction
     _ => r.log_range(50e-6, 50e-3),
   }
 }
@@ -121,6 +122,8 @@ pub fn run(ctx: &mut Ctx) {
   domains(ctx);
   state_machine(ctx);
   spdc_level(ctx);
+  window_routes(ctx);
+  history(ctx);
 }
 
 // ------------------------------------------------------------------ windows: correspondence
@@ -173,8 +176,17 @@ fn windows_k(ctx: &mut Ctx) {
   }
 }
 
+static HIST_IC: std::sync::Mutex<Vec<(Apodization, f64, f64, Option<f64>)>> = std::sync::Mutex::new(Vec::new());
+static HIST_DOM: std::sync::Mutex<Vec<(f64, Apodization, f64, Option<Vec<(f64, f64)>>)>> = std::sync::Mutex::new(Vec::new());
+
 fn apod_case(ctx: &mut Ctx, w: &Apodization, z: f64, len: f64) {
   let r = ic(w, z, len);
+  {
+    let mut h = HIST_IC.lock().unwrap();
+    if h.len() < 4000 {
+      h.push((w.clone(), z, len, r));
+    }
+  }
   ctx.count(&format!("apod/{}/{}", w.kind(), if r.is_some() { "ok" } else { "panic" }));
   ctx.k("apod", &format!("{} {} {}", fl(z), fl(len), apod_wire(w)), &r.map(fl).unwrap_or("PANIC".into()));
 }
@@ -329,6 +341,9 @@ fn domains(ctx: &mut Ctx) {
     ctx.k("num_domains", &format!("{} {}", fl(len), fl(period)), &nd.to_string());
     let pp2 = pp.clone();
     let doms = guard(move || pp2.poling_domains(len * M));
+    if nd <= 500 {
+      HIST_DOM.lock().unwrap().push((period, w.clone(), len, doms.clone()));
+    }
     let args = format!("{} {} {}", fl(len), fl(period), apod_wire(&w));
     let out = match &doms {
       Some(d) => format!("{} {}", d.len(), fls(&d.iter().flat_map(|p| [p.0, p.1]).collect::<Vec<_>>())),
@@ -612,4 +627,170 @@ fn spdc_level(ctx: &mut Ctx) {
     }
     ctx.count(&format!("pp/spdc/{}", opname));
   }
+}
+
+/// the same windows reached through every route: the enum, `ApodizationConfig → Apodization`, JSON with each alias
+/// of the kind, and the `PeriodicPoling::integration_constant` / `apodization()` wrappers — the statement's window
+/// clauses must hold on each
+fn window_routes(ctx: &mut Ctx) {
+  const SLACK: f64 = 1e-15;
+  let names = ["Bartlett", "Blackman", "Connes", "Cosine", "Hamming", "Welch"];
+  let mut routes: Vec<(String, Apodization, Option<Apodization>)> = vec![];
+  for (k, name) in names.iter().enumerate() {
+    let direct = six(k, 1.);
+    let cfg = match k {
+      0 => ApodizationConfig::Bartlett(1.),
+      1 => ApodizationConfig::Blackman(1.),
+      2 => ApodizationConfig::Connes(1.),
+      3 => ApodizationConfig::Cosine(1.),
+      4 => ApodizationConfig::Hamming(1.),
+      _ => ApodizationConfig::Welch(1.),
+    };
+    routes.push((format!("config/{}", name), cfg.into(), Some(direct.clone())));
+    for alias in [name.to_string(), name.to_lowercase()] {
+      for param in ["1", "1.0", "1e0"] {
+        let js = format!("{{\"kind\":\"{}\",\"parameter\":{}}}", alias, param);
+        match serde_json::from_str::<Apodization>(&js) {
+          Ok(w) => routes.push((format!("json/{}", js.replace(' ', "")), w, Some(direct.clone()))),
+          Err(e) => ctx.s("C19.config", false, "config/window-mapping", &format!("json={} error={}", js.replace(' ', ""), e.to_string().replace(' ', "_"))),
+        }
+      }
+    }
+  }
+  for _ in 0..4 {
+    let len = gen_len(&mut ctx.rng);
+    let fwhm_um = (ctx.rng.log_range(0.01, 1.) * len * 1e6 * 1e4).round() / 1e4; // survives the 4-decimal config rounding
+    if fwhm_um <= 0. {
+      continue;
+    }
+    let direct = Apodization::Gaussian { fwhm: fwhm_um * 1e-6 * M };
+    routes.push(("config/Gaussian".into(), ApodizationConfig::Gaussian { fwhm_um }.into(), Some(direct.clone())));
+    for alias in ["Gaussian", "gaussian"] {
+      let js = format!("{{\"kind\":\"{}\",\"parameter\":{{\"fwhm_um\":{:e}}}}}", alias, fwhm_um);
+      match serde_json::from_str::<Apodization>(&js) {
+        Ok(w) => routes.push((format!("json/{}", js), w, Some(direct.clone()))),
+        Err(e) => ctx.s("C19.config", false, "config/window-mapping", &format!("json={} error={}", js, e.to_string().replace(' ', "_"))),
+      }
+    }
+    // and back: runtime → config → runtime keeps the kind and (for values on the config grid) the width
+    let back: Apodization = ApodizationConfig::from(direct.clone()).into();
+    routes.push(("roundtrip/Gaussian".into(), back, Some(direct)));
+  }
+  for alias in ["Off", "off", "none", "None"] {
+    let js = format!("{{\"kind\":\"{}\"}}", alias);
+    match serde_json::from_str::<Apodization>(&js) {
+      Ok(w) => routes.push((format!("json/{}", js), w, Some(Apodization::Off))),
+      Err(e) => ctx.s("C19.config", false, "config/window-mapping", &format!("json={} error={}", js, e.to_string().replace(' ', "_"))),
+    }
+  }
+  let vals = vec![0.25, 0.5, 1.0, 0.75];
+  for alias in ["Interpolate", "interpolate"] {
+    let js = format!("{{\"kind\":\"{}\",\"parameter\":[0.25,0.5,1.0,0.75]}}", alias);
+    match serde_json::from_str::<Apodization>(&js) {
+      Ok(w) => routes.push((format!("json/{}", js), w, Some(Apodization::Interpolate(vals.clone())))),
+      Err(e) => ctx.s("C19.config", false, "config/window-mapping", &format!("json={} error={}", js, e.to_string().replace(' ', "_"))),
+    }
+  }
+  for (route, w, expect) in routes {
+    let desc = format!("route={} {}", route, apod_desc(&w));
+    if let Some(e) = &expect {
+      let same = match (&w, e) {
+        (Apodization::Gaussian { fwhm: x }, Apodization::Gaussian { fwhm: y }) => ((*x / M) - (*y / M)).abs() <= 1e-12 * (*y / M).abs(),
+        (x, y) => x == y,
+      };
+      ctx.s("C19.config", same, "config/window-mapping", &format!("{} expected_kind={}", desc, e.kind()));
+    }
+    let len = match &w {
+      Apodization::Gaussian { fwhm } => *(*fwhm / M) * ctx.rng.range(1., 20.),
+      _ => gen_len(&mut ctx.rng),
+    };
+    let sign = if ctx.rng.coin() { 1. } else { -1. };
+    let pp = PeriodicPoling::new(sign * 10e-6 * M, w.clone());
+    let via_pp = |z: f64| {
+      let p2 = pp.clone();
+      guard(move || p2.integration_constant(z, len * M))
+    };
+    ctx.s("C19.window", pp.apodization() == &w, "window/wrapper", &desc);
+    match &w {
+      Apodization::Off => {
+        let z = ctx.rng.range(-1., 1.);
+        ctx.s("C19.window", via_pp(z) == Some(1.) && ic(&w, z, len) == Some(1.), "window/off", &desc);
+      }
+      Apodization::Interpolate(v) if !v.is_empty() => {
+        let ok = via_pp(-1.) == Some(v[0]) && via_pp(1.) == Some(v[v.len() - 1]) && ic(&w, -1., len) == Some(v[0]);
+        ctx.s("C19.interp", ok, "interp/ends", &desc);
+      }
+      _ => {
+        let mut ok_c = via_pp(0.).map(|v| (v - 1.).abs() <= SLACK).unwrap_or(false);
+        ok_c &= ic(&w, 0., len).map(|v| (v - 1.).abs() <= SLACK).unwrap_or(false);
+        ctx.s("C19.window", ok_c, "window/centre", &desc);
+        let mut ok = true;
+        let mut why = String::new();
+        for j in 0..=40 {
+          let z = j as f64 / 40.;
+          match (via_pp(z), via_pp(-z), ic(&w, z, len)) {
+            (Some(p), Some(q), Some(d)) if (p - q).abs() <= SLACK && p >= -SLACK && p <= 1. + SLACK && p == d => {}
+            other => {
+              ok = false;
+              why = format!("z={:e} got={:?}", z, other);
+            }
+          }
+        }
+        ctx.s("C19.window", ok, "window/even-range", &format!("{} {}", desc, why));
+        if let Apodization::Gaussian { fwhm } = &w {
+          let z = *(*fwhm / M) / len;
+          let ok = via_pp(z).map(|v| (v - 0.5).abs() <= 1e-12).unwrap_or(false) && via_pp(-z).map(|v| (v - 0.5).abs() <= 1e-12).unwrap_or(false);
+          ctx.s("C19.gaussian", ok, "gaussian/half-maximum", &format!("{} L={:e} z={:e}", desc, len, z));
+        }
+      }
+    }
+    ctx.count(&format!("routes/{}", route.split('/').next().unwrap_or("")));
+  }
+  // the Gaussian exactly as wide as the crystal: half maximum exactly at the crystal faces z = ±1
+  for _ in 0..20 {
+    let len = gen_len(&mut ctx.rng);
+    let w = Apodization::Gaussian { fwhm: len * M };
+    let ok = ic(&w, 1., len).map(|v| (v - 0.5).abs() <= 1e-12).unwrap_or(false) && ic(&w, -1., len).map(|v| (v - 0.5).abs() <= 1e-12).unwrap_or(false);
+    ctx.s("C19.gaussian", ok, "gaussian/half-maximum", &format!("kind=Gaussian fwhm={:e} L={:e} z=1", len, len));
+  }
+}
+
+/// history independence: the recorded window values and domain lists are recomputed in reversed order at the
+/// end of the run and must be bit-identical
+fn history(ctx: &mut Ctx) {
+  let h1: Vec<_> = HIST_IC.lock().unwrap().drain(..).collect();
+  let mut ok = true;
+  let mut why = String::new();
+  let n1 = h1.len();
+  for (w, z, len, r0) in h1.into_iter().rev() {
+    let r = ic(&w, z, len);
+    let same = match (r, r0) {
+      (Some(x), Some(y)) => x.to_bits() == y.to_bits() || (x.is_nan() && y.is_nan()),
+      (None, None) => true,
+      _ => false,
+    };
+    if !same {
+      ok = false;
+      why = format!("{} z={:e} L={:e} first={:?} again={:?}", apod_desc(&w), z, len, r0, r);
+    }
+  }
+  ctx.s("C19.history", ok, "history/window/changed", &format!("calls={} {}", n1, why));
+  let h2: Vec<_> = HIST_DOM.lock().unwrap().drain(..).collect();
+  let mut ok = true;
+  let mut why = String::new();
+  let n2 = h2.len();
+  for (period, w, len, d0) in h2.into_iter().rev() {
+    let pp = PeriodicPoling::new(period * M, w.clone());
+    let d = guard(move || pp.poling_domains(len * M));
+    let same = match (&d, &d0) {
+      (Some(x), Some(y)) => x.len() == y.len() && x.iter().zip(y.iter()).all(|(p, q)| p.0.to_bits() == q.0.to_bits() && p.1.to_bits() == q.1.to_bits()),
+      (None, None) => true,
+      _ => false,
+    };
+    if !same {
+      ok = false;
+      why = format!("{} L={:e} period={:e}", apod_desc(&w), len, period);
+    }
+  }
+  ctx.s("C19.history", ok, "history/domains/changed", &format!("calls={} {}", n2, why));
 }
